@@ -342,6 +342,7 @@ int filter_fix_linedirs (struct filter *chain)
 	int     lineno = 1;
 	bool    in_gen = true;	/* in generated code */
 	bool    last_was_blank = false;
+	bool    at_bol = true;	/* buf starts at the beginning of a line */
 
 	if (!chain)
 		return 0;
@@ -349,6 +350,21 @@ int filter_fix_linedirs (struct filter *chain)
 	while (fgets (buf, (int) readsz, stdin)) {
 
 		regmatch_t m[10];
+		size_t  len = strlen (buf);
+		bool    whole = at_bol && len > 0 && buf[len - 1] == '\n';
+
+		/* A line longer than the buffer arrives in pieces.  It is one
+		 * line of the output, and none of its pieces is a directive
+		 * or a blank line.
+		 */
+		if (!whole && (!at_bol || len + 1 == readsz)) {
+			at_bol = len > 0 && buf[len - 1] == '\n';
+			last_was_blank = false;
+			fputs (buf, stdout);
+			if (at_bol)
+				lineno++;
+			continue;
+		}
 
 		/* Check for directive. Note wired-in assumption:
 		 * field reference 1 is line number, 2 is filename.
